@@ -381,3 +381,23 @@ PROPS["C11"] = {
         Leg("return", "c11", "^TestReturn$", engine="sched", checks=(30, 500), shards=(16, 32), tests=["return"], replay_attempts=5),
     ],
 }
+
+PROPS["C16"] = {
+    "title": "rtcmlogger passes its input through unchanged and records an identical copy",
+    "level": "exploration",
+    "technique": "property-based testing (rapid) driving the real rtcmlogger binary built from the tree: generated inputs x stdin delivery (file / chunked pipe) x GOMAXPROCS, plus a binary instrumented with yield points; oracle: stdout == stdin == record file after exit",
+    "level_text": ("Process-level exploration: each case builds nothing but runs the program as a user would - input of a generated length (0, 1, around the 8096-byte "
+                   "block and its multiples, up to 200 KB) and content, delivered as a regular file or through a pipe in generated chunks with pauses, GOMAXPROCS 1/2/4/16, "
+                   "event log on/off, fresh directories - and compares captured stdout and the record file found after exit with the input. The thorough tier and a "
+                   "small quick leg use a binary whose recorder/copy loop has seeded yields and sleeps around every channel operation, which widens the end-of-input "
+                   "hand-over window. The exit race is a schedule property: runs are samples."),
+    "rule": ("Cases: (length, content seed/kind, pipe with chunk script and pause | regular file, GOMAXPROCS, log_events, yield seed). Non-trivial = non-empty input; "
+             "distinct = distinct case hash."),
+    "assumptions": ["the binary is built from the working tree with go build ./apps/rtcmlogger", "the record file is rtcmlogger.<date>.rtcm in message_log_directory (files concatenated in name order if the run crosses midnight)", "Go toolchain, rapid v1.3.0"],
+    "min_evals": {"quick": 300, "thorough": 8000},
+    "legs": [
+        Leg("run", "c16", "^TestRun$", engine="process", app=["rtcmlogger"], checks=(30, 500), shards=(16, 16), tests=["run"], replay_attempts=20),
+        Leg("run-instrumented", "c16", "^TestRun$", engine="process+sched", app=["rtcmlogger"], instrument=["apps/rtcmlogger/main.go"],
+            env={"VERIF_INSTRUMENTED": "1"}, checks=(8, 150), shards=(16, 16), tests=["run"], replay_attempts=20),
+    ],
+}
